@@ -110,6 +110,17 @@ CHECKS = {
   "note": COMMON_NOTE + "Liveness (every seed eventually leaves the pipeline) is observed, not proved. Channel hand-over is assumed atomic. "
           "The model's stages transform trees arbitrarily, so stage bugs that corrupt a tree are C11/C05/C06's, not C01's.",
  },
+ "C02": {
+  "text": "Theorems over the log model of a job (written / archived / settled / notify / deleted, each with the guard the source gives "
+          "it): in every admissible log with synchronous writing, and every prefix of it, a seed is reported finished only after every "
+          "exchange fetched for it - successful, retried or given up - was written; the discard policy is exactly 'Cloudflare challenge "
+          "or listed status'; challenge pages are retried. Whole crawls against a scripted origin with a fake crawl HQ that snapshots the "
+          "WARC files at the moment of each acknowledgement: every record is read back member by member and compared (URL, status, "
+          "length, SHA-1, revisit digest) with what the origin sent; discarded responses must be absent; decisions compared with the "
+          "model's tables.",
+  "note": COMMON_NOTE + "The WARC library (record format, gzip members, flushing before the feedback signal, DiscardHook) is modelled by its "
+          "contract and validated by read-back, not verified.",
+ },
  "C05": {
   "text": "Theorem over the stage model for every seed tree, configuration, normaliser and seen-store: each node preprocess attaches a "
           "request to (seed, redirect target or asset) was accepted by the URL normaliser and passes the include / exclude / regex "
